@@ -12,7 +12,8 @@
 (* One action = one such event with all its synchronous consequences; the  *)
 (* observable actions of an event are, in order,                           *)
 (*   <<"coord">> <<"meta">> <<"join", member>> <<"parts">>                 *)
-(*   <<"sync", gen, member, nAssignments>> <<"hb", gen, member>>           *)
+(*   <<"sync", gen, member, nAssignments, <<partitions assigned>>>>        *)
+(*   <<"hb", gen, member>>                                                 *)
 (*   <<"leave", member>> <<"reset">> (coordinator cache invalidated)       *)
 (*   <<"timer", delay>> (a delayed rejoin)                                 *)
 (*   <<"cstart", p, gen, member, fromCommitted>> <<"cshut", p>> <<"cstop", p>> *)
@@ -162,11 +163,12 @@ Step(s, e) ==
            LET s1 == [s EXCEPT !.member = e.w[1], !.gen = e.x] IN
            IF s.stop # "no" THEN EndJoin(St(s1, <<>>))
            ELSE IF e.k = "leader" THEN Act(St([s1 EXCEPT !.rj = "parts"], <<>>), <<"parts">>)
-           ELSE Act(St([s1 EXCEPT !.rj = "sync"], <<>>), <<"sync", e.x, e.w[1], 0>>)
+           ELSE Act(St([s1 EXCEPT !.rj = "sync"], <<>>), <<"sync", e.x, e.w[1], 0, <<>>>>)
       [] e.a \in {"JoinErr", "SyncErr"} -> RejoinAfterError(EndJoin(st0), e.k)
       [] e.a = "PartsDone" ->
            IF s.stop # "no" THEN EndJoin(st0)
-           ELSE Act(St([s EXCEPT !.rj = "sync"], <<>>), <<"sync", s.gen, s.member, 2>>)
+           \* the leader assigns every partition the lookup just reported (e.x of them), to the two members
+           ELSE Act(St([s EXCEPT !.rj = "sync"], <<>>), <<"sync", s.gen, s.member, 2, [i \in 1..e.x |-> i - 1]>>)
       [] e.a = "SyncDone" ->
            IF s.stop # "no" THEN EndJoin(st0)
            ELSE LET RECURSIVE Starts(_, _)
@@ -187,10 +189,11 @@ VARIABLES s, ev, out, h
 vars == <<s, ev, out, h>>
 
 Ev(a, x, k, w) == [a |-> a, x |-> x, k |-> k, w |-> w]
-InitHist == [ stoppedBefore |-> FALSE, joins |-> 0, firedDuring |-> FALSE ]
+InitHist == [ stoppedBefore |-> FALSE, joins |-> 0, firedDuring |-> FALSE, leads |-> 0 ]
 UpdHist(hh, pre, e, r) ==
     [ stoppedBefore |-> pre.stop # "no",        \* this event found the member stopping or stopped
       joins |-> hh.joins + Cardinality({i \in DOMAIN r.out : r.out[i][1] = "join"}),
+      leads |-> hh.leads + (IF e.a = "JoinDone" /\ e.k = "leader" THEN 1 ELSE 0),
       \* a delayed rejoin fired while the join now in progress was already running
       firedDuring |-> IF pre.rj = "none" THEN FALSE ELSE hh.firedDuring \/ e.a = "RejoinFire" ]
 
@@ -199,7 +202,8 @@ Init == s = InitState /\ ev = Ev("Init", 0, "", <<>>) /\ out = <<>> /\ h = InitH
 ErrKinds == {"rebalance", "notcoord", "illegal", "unknown", "inconsistent", "timeout", "kafka", "other"}
 Assignments == {<<>>, <<0>>, <<1>>, <<0, 1>>}
 Events(st) ==
-         {Ev(a, 0, "", <<>>) : a \in {"Start", "Stop", "MetaDone", "PartsDone", "HbTick", "HbDone", "RejoinFire", "LeaveDone"}}
+         {Ev(a, 0, "", <<>>) : a \in {"Start", "Stop", "MetaDone", "HbTick", "HbDone", "RejoinFire", "LeaveDone"}}
+    \cup {Ev("PartsDone", n, "", <<>>) : n \in {2, 3}}
     \cup {Ev("CoordDone", x, "", <<>>) : x \in {0, 1}}
     \cup {Ev("CoordErr", 0, k, <<>>) : k \in {"notavail", "timeout", "kafka", "other"}}
     \cup {Ev(a, 0, k, <<>>) : a \in {"MetaErr", "PartsErr", "LeaveErr"}, k \in {"kafka", "other"}}
@@ -219,6 +223,7 @@ Bound == TLCGet("level") <= MaxDepth /\ s.rtimers <= 2 /\ s.gen <= 7
 Goal_error_after_stale_timer == ev.a \in {"JoinErr", "SyncErr"} /\ ev.k = "rebalance" /\ h.firedDuring
 Goal_stop_during_prepare == ev.a = "Stop" /\ s.rj = "prepare" /\ Len(s.closing) = 2
 Goal_evicted_as_leader == ev.a = "HbErr" /\ ev.k = "illegal" /\ Len(s.cons) = 0 /\ h.joins >= 2
+Goal_leader_again_more_partitions == ev.a = "PartsDone" /\ ev.x = 3 /\ h.leads >= 2
 Goal_consumer_error_during_join == ev.a = "CErr" /\ s.rj \in {"coord", "meta"}
 
 (* Property clauses *)
